@@ -90,6 +90,7 @@ type sconn struct {
 	done             chan struct{}
 	// under f.mu
 	lo           []int64
+	part         int32 // the partition named by the last fetch
 	nfetch       int
 	nmeta        int
 	closed       bool
@@ -106,6 +107,10 @@ type Fake struct {
 	leader    int
 	logStart  int64
 	logEnd    int64
+	Partition  int32   // the partition the Reader under test is configured with
+	parts      []int32 // partition ids in the ORDER the Metadata answer lists them (nil: just partition 0)
+	brokerSwap bool    // list the brokers in the order 2, 1
+	wrongPart  []int32 // partitions other than Partition named by Fetch / ListOffsets requests
 	times     [][2]int64 // (timestamp ms, offset) in offset order: ListOffsets with a real timestamp answers the first offset whose timestamp is >= it
 	lso       int64 // last stable offset reported by data answers when below the high watermark; -1: = high watermark
 	gen       int
@@ -158,6 +163,22 @@ func (f *Fake) SetLeader(id int)        { f.mu.Lock(); f.leader = id; f.mu.Unloc
 func (f *Fake) Leader() int             { f.mu.Lock(); defer f.mu.Unlock(); return f.leader }
 func (f *Fake) SetLog(start, end int64) { f.mu.Lock(); f.logStart, f.logEnd = start, end; f.mu.Unlock() }
 func (f *Fake) FailNextDials(n int)     { f.mu.Lock(); f.failDials = n; f.mu.Unlock() }
+
+// SetPartitions: the topic has the given partitions, listed by the Metadata answer in exactly this
+// order (real brokers do not sort them); `own` is the partition of the Reader under test, the
+// only one the fake holds data for.  The other partitions are led by the other broker.
+func (f *Fake) SetPartitions(own int32, order []int32, brokerSwap bool) {
+	f.mu.Lock()
+	f.Partition, f.parts, f.brokerSwap = own, order, brokerSwap
+	f.mu.Unlock()
+}
+
+// WrongPartitions: the partitions other than the Reader's own that Fetch / ListOffsets requests named.
+func (f *Fake) WrongPartitions() []int32 {
+	f.mu.Lock()
+	defer f.mu.Unlock()
+	return append([]int32{}, f.wrongPart...)
+}
 
 // SetTimes: the timestamp index used to answer ListOffsets requests that carry a real timestamp.
 func (f *Fake) SetTimes(t [][2]int64) { f.mu.Lock(); f.times = t; f.mu.Unlock() }
@@ -342,8 +363,18 @@ func (sc *sconn) handle(req []byte) {
 		sc.nmeta++
 		f.record(sc, Event{Kind: EvMetadata, A: int64(leader)})
 		f.mu.Unlock()
+		f.mu.Lock()
+		parts, own, swap := f.parts, f.Partition, f.brokerSwap
+		f.mu.Unlock()
+		if parts == nil {
+			parts = []int32{0}
+		}
 		w.i32(2) // brokers
-		for id := int32(1); id <= 2; id++ {
+		ids := []int32{1, 2}
+		if swap {
+			ids = []int32{2, 1}
+		}
+		for _, id := range ids {
 			w.i32(id)
 			w.str(fmt.Sprintf("b%d", id))
 			w.i32(9092)
@@ -353,17 +384,23 @@ func (sc *sconn) handle(req []byte) {
 		w.i32(1) // topics
 		w.i16(0)
 		w.str(f.Topic)
-		w.i8(0)  // internal
-		w.i32(1) // partitions
-		w.i16(0)
-		w.i32(0)
-		w.i32(int32(leader))
-		w.i32(2) // replicas
-		w.i32(1)
-		w.i32(2)
-		w.i32(2) // isr
-		w.i32(1)
-		w.i32(2)
+		w.i8(0) // internal
+		w.i32(int32(len(parts)))
+		for _, pid := range parts {
+			l := int32(leader)
+			if pid != own {
+				l = 3 - l // the other partitions live on the other broker
+			}
+			w.i16(0)
+			w.i32(pid)
+			w.i32(l)
+			w.i32(2) // replicas
+			w.i32(1)
+			w.i32(2)
+			w.i32(2) // isr
+			w.i32(1)
+			w.i32(2)
+		}
 		sc.send(w.b)
 
 	case 2: // ListOffsets v1
@@ -374,6 +411,9 @@ func (sc *sconn) handle(req []byte) {
 		part := c.i32()
 		ts := c.i64()
 		f.mu.Lock()
+		if part != f.Partition {
+			f.wrongPart = append(f.wrongPart, part)
+		}
 		var off int64
 		switch ts {
 		case -2:
@@ -419,7 +459,7 @@ func (sc *sconn) handle(req []byte) {
 		_ = c.i32() // topics (1)
 		_ = c.str()
 		_ = c.i32() // partitions (1)
-		_ = c.i32() // partition
+		fpart := c.i32()
 		if v >= 9 {
 			_ = c.i32() // current leader epoch
 		}
@@ -430,7 +470,11 @@ func (sc *sconn) handle(req []byte) {
 		pmax := c.i32()
 		// v7+: forgotten topics array follows; ignored
 		f.mu.Lock()
+		if fpart != f.Partition {
+			f.wrongPart = append(f.wrongPart, fpart)
+		}
 		sc.nfetch++
+		sc.part = fpart
 		pf := &PendingFetch{ConnID: sc.id, Broker: sc.broker, Gen: sc.gen, Offset: off, MaxBytes: int(pmax), Version: v, corr: corr, sc: sc}
 		sc.pending = pf
 		f.record(sc, Event{Kind: EvFetch, A: off, B: int64(pmax)})
@@ -448,7 +492,7 @@ func (sc *sconn) handle(req []byte) {
 
 // fetchHeader builds the frame body (correlation id included) of a fetch response up to and
 // including the message set size field.
-func fetchHeader(v int, corr int32, topic string, code int16, hwm, lso, logStart int64, declared int32) []byte {
+func fetchHeader(v int, corr int32, topic string, part int32, code int16, hwm, lso, logStart int64, declared int32) []byte {
 	var w wbuf
 	w.i32(corr)
 	if v >= 1 {
@@ -461,7 +505,7 @@ func fetchHeader(v int, corr int32, topic string, code int16, hwm, lso, logStart
 	w.i32(1)
 	w.str(topic)
 	w.i32(1)
-	w.i32(0) // partition
+	w.i32(part) // partition: the one the request named
 	w.i16(code)
 	w.i64(hwm)
 	if v >= 4 {
@@ -480,7 +524,7 @@ func fetchHeader(v int, corr int32, topic string, code int16, hwm, lso, logStart
 // DataHeaderLen: number of bytes of a fetch response frame body (correlation id included)
 // that precede the message set, for fetch version v.
 func (f *Fake) DataHeaderLen(v int) int {
-	return len(fetchHeader(v, 0, f.Topic, 0, 0, 0, 0, 0))
+	return len(fetchHeader(v, 0, f.Topic, 0, 0, 0, 0, 0, 0))
 }
 
 func (p *PendingFetch) take() bool {
@@ -521,7 +565,7 @@ func (p *PendingFetch) RespondDataFrameCut(hwm int64, msgset []byte, declaredSiz
 		lso = f.lso
 	}
 	f.mu.Unlock()
-	body := append(fetchHeader(p.Version, p.corr, f.Topic, 0, hwm, lso, ls, int32(declaredSize)), msgset...)
+	body := append(fetchHeader(p.Version, p.corr, f.Topic, sc.part, 0, hwm, lso, ls, int32(declaredSize)), msgset...)
 	frame := make([]byte, 4+len(body))
 	binary.BigEndian.PutUint32(frame, uint32(len(body)))
 	copy(frame[4:], body)
@@ -548,7 +592,7 @@ func (p *PendingFetch) RespondError(code int16) bool {
 	if !p.take() {
 		return false
 	}
-	p.sc.send(fetchHeader(p.Version, p.corr, p.sc.f.Topic, code, -1, -1, -1, 0))
+	p.sc.send(fetchHeader(p.Version, p.corr, p.sc.f.Topic, p.sc.part, code, -1, -1, -1, 0))
 	return true
 }
 
